@@ -627,6 +627,12 @@ impl ObjectHandle {
     ObjectRef { ptr: self.ptr }
   }
 
+  /// verification hook: the address of the block behind this handle
+  #[cfg(laythe_verif)]
+  pub fn verif_ptr(&self) -> *const u8 {
+    self.ptr.as_ptr() as *const u8
+  }
+
   #[inline]
   pub fn kind(&self) -> ObjectKind {
     self.header().kind()
